@@ -571,6 +571,8 @@ async def run_scenario(ck: Check, r, sc, want_cases=None):
     with g.observe() as log:
         try:
             res = await g.run_ft_async(ft)
+        except g.FunctionRaised:
+            raise
         except Exception as e:
             # find the case that makes the runner raise
             return [{"label": "raised", "case": None, "must_pass": None, "got": f"raised:{type(e).__name__}: {e}",
@@ -604,7 +606,11 @@ def _run_e2e_chunk(ck: Check, drv: LeanDriver, r, n: int):
     pending = []   # (scenario, record) for the model
     for _ in range(n):
         sc = gen_scenario(r)
-        records = ku.run(run_scenario(ck, r, sc))
+        try:
+            records = ku.run(run_scenario(ck, r, sc))
+        except g.FunctionRaised:
+            ck.count("e2e:skipped:function-under-test-raised")
+            continue
         ck.count(f"e2e:{sc['kind']}:{sc['situation']}")
         for rec in records:
             ck.evaluated()
@@ -612,7 +618,10 @@ def _run_e2e_chunk(ck: Check, drv: LeanDriver, r, n: int):
                 # the whole run raised / aborted: isolate one offending case
                 bad_case = None
                 for t in rec["cases"]:
-                    sub = ku.run(run_scenario(ck, r, sc, want_cases=[t]))
+                    try:
+                        sub = ku.run(run_scenario(ck, r, sc, want_cases=[t]))
+                    except g.FunctionRaised:
+                        continue
                     if sub and sub[0]["case"] is None:
                         bad_case = t
                         break
@@ -715,7 +724,11 @@ def check_case(ftrun, case: dict):
             return None
         sc = {"kind": case["kind"], "fn_spec": case["fn_spec"], "inputs": case["inputs"], "current": case.get("current"),
               "situation": "replay"}
-        recs = ku.run(run_scenario(None, rng("replay"), sc, want_cases=[("replay", case["case"], case["must_pass"])]))
+        try:
+            recs = ku.run(run_scenario(None, rng("replay"), sc,
+                                       want_cases=[("replay", case["case"], case["must_pass"])]))
+        except g.FunctionRaised:
+            return None
         if not recs:
             return "the case did not run"
         rec = recs[0]
